@@ -64,6 +64,23 @@ def run(ck, ctx):
     ck.floor("R10.1", len(funcs), 15, "functions in the kernel's closure")
     kernel_effects = [e for e in r.effects if "CphotAng.run" in e.funcs()]
     fn = "CphotAng.run (closure)"
+    # what runs once per event is the mapped function, of which the kernel is a part: the functions on the call path
+    # between the batch call and the kernel (a lambda today; a module-level task function, a wrapper, ...)
+    between = set()
+    for rec in I2.call_records:
+        if rec[0].qualname == "CphotAng.run":
+            seen_call = False
+            for _s, f_ in rec[1]:
+                if f_ is None:
+                    continue
+                if f_.qualname == "CphotAng.__call__":
+                    seen_call = True
+                    continue
+                if seen_call and f_.qualname != "CphotAng.run":
+                    between.add(f_)
+    task_effects = [e for e in r.effects if "CphotAng.run" not in e.funcs() and
+                    any(f_ in between for _s, f_ in e.chain if f_ is not None) and
+                    e.kind in ("global-write", "nonlocal-write")]
 
     # ---------------------------------------------------------------- R10.1 purity
     def r101():
@@ -78,6 +95,12 @@ def run(ck, ctx):
                 obj = e.node
                 if obj is not None and obj.id < _kstart(I2, runs):
                     bad.append((e, [obj]))
+        for e in task_effects:
+            f = e.funcs()[-1] if e.funcs() else "?"
+            ck.ob("R10.1", f"the function mapped over the events keeps nothing between events [{f} at {e.where()}]", False,
+                  e.node, f, f"{e.kind} of '{e.data.get('name')}': a module-level or captured variable written by one "
+                  "event's task is read by the next one in the same worker - which events share a worker is the "
+                  "scheduler's choice", construct=f"{f}: {e.kind} {e.data.get('name')}")
         for e, hit in bad:
             f = e.funcs()[-1] if e.funcs() else "?"
             ck.ob("R10.1", f"kernel closure writes no shared object [{f} at {e.where()}]", False, e.node, f,
@@ -85,7 +108,7 @@ def run(ck, ctx):
                   ", ".join(g2.show(x, 2) for x in hit[:3]),
                   construct=f"{f}: {e.kind} on a pre-existing object")
         ck.ob("R10.1", "no function of the kernel closure writes instance state, globals, captured variables or "
-              "its parameters", not bad, runs[0][3], fn,
+              "its parameters", not bad and not task_effects, runs[0][3], fn,
               f"{sum(1 for e in kernel_effects if e.kind in ('write', 'attr-write'))} writes inspected, all on "
               "objects created in the same invocation" if not bad else f"{len(bad)} offending write(s)")
         unk = [e for e in kernel_effects if e.kind in ("call-unknown", "extcall-unknown", "mcall-unknown",
